@@ -17,6 +17,7 @@ import (
 	"github.com/alephium/wormhole-fork/node/pkg/vaa"
 	"github.com/alephium/wormhole-fork/node/verifh/ev"
 	"github.com/alephium/wormhole-fork/node/verifh/proch"
+	"github.com/alephium/wormhole-fork/node/verifh/vtime"
 )
 
 const outsider = 9999
@@ -144,7 +145,7 @@ func main() {
 	si, sn, worker := ev.Shard()
 	if !worker {
 		r.Set("jobs", len(js))
-		r.Fork(0, []string{"GOMAXPROCS=2"}, nil)
+		r.Fork(0, []string{"GOMAXPROCS=1", "GODEBUG=asyncpreemptoff=1,goindex=0"}, r.CrashViolation)
 		r.Set("rule", "state = canonical key of (aggregation entries incl. exact virtual ages, store, pending loopbacks, model state); a history ends at a panic (the process would exit); in every new state the good suffix Set, Msg(fresh), LB, Obs x quorum must still publish")
 		r.Assume("nil *MessagePublication / nil *GuardianSet pointers are produced only by trusted in-process code and are not in the alphabet")
 		r.Assume("the real Run loop's select adds no behaviour beyond dispatching one event per iteration (mirrored line by line in the VerifDispatch hook)")
@@ -197,6 +198,7 @@ func main() {
 			}
 		}
 		x.BFS(j.Depth, menu(j), 600000, nil)
+		runLoopReplay(r, w, j)
 		r.Add("states", x.States)
 		r.Add("transitions", x.Transitions)
 		r.Add("traces_validated_against_impl", x.Builds)
@@ -249,4 +251,88 @@ func replay(r *ev.Run, path string) {
 		os.Exit(1)
 	}
 	os.Exit(0)
+}
+
+// runLoopReplay validates the one-iteration dispatch hook against the REAL Run goroutine: every
+// history of depth <= 3 over a reduced alphabet (each local observation / injection immediately followed
+// by its loopback, as Run itself consumes it) is executed twice - through the handler-level hook and
+// through the real Run loop with rendezvous deliveries and the real cleanup ticker - and the resulting
+// aggregation state, store and outputs must be identical. A panic inside Run kills the worker and is
+// attributed to the journalled history.
+func runLoopReplay(r *ev.Run, w *proch.World, j job) {
+	alpha := []proch.Event{{Kind: "set", Set: 0}, {Kind: "set", Set: 1}, {Kind: "msg", M: j.MsgIdx[0]}, {Kind: "msg", M: j.MsgIdx[len(j.MsgIdx)-1]}, {Kind: "inject", M: 7},
+		{Kind: "obs", G: 0, D: j.MsgIdx[0]}, {Kind: "obs", G: 1, D: j.MsgIdx[0]}, {Kind: "obs", G: 0, D: j.MsgIdx[0], ObsKind: 7}, {Kind: "obs", G: 0, D: j.MsgIdx[0], ObsKind: 4},
+		{Kind: "in", M: j.MsgIdx[0], InVar: 0, InSet: 0}, {Kind: "in", M: j.MsgIdx[0], InVar: 9, InSet: 0}, {Kind: "in", M: j.MsgIdx[0], InVar: 14, InSet: 0},
+		{Kind: "tick", DtSec: 31}, {Kind: "tick", DtSec: 360}}
+	depth := r.Pick(3, 4)
+	rad := make([]int, depth)
+	var rec func(h []proch.Event)
+	_ = rad
+	rec = func(h []proch.Event) {
+		if len(h) > 0 {
+			compareRunLoop(r, w, &j.C, h)
+		}
+		if len(h) == depth {
+			return
+		}
+		for _, e := range alpha {
+			rec(append(append([]proch.Event{}, h...), e))
+		}
+	}
+	rec(nil)
+}
+
+func compareRunLoop(r *ev.Run, w *proch.World, c *proch.Config, h []proch.Event) {
+	r.Add("run_loop_traces", 1)
+	r.Add("traces_validated_against_impl", 1)
+	var pretty []string
+	for _, e := range h {
+		pretty = append(pretty, e.String())
+	}
+	// (1) handler level, loopbacks delivered immediately
+	x := &proch.Explorer{R: r, W: w, C: c, Oracles: map[string]bool{}, WithTimes: true}
+	n1 := w.NewNode(c.OwnKey, 50)
+	outs1 := 0
+	panicked := false
+	for _, e := range h {
+		if e.Kind == "tick" {
+			vtime.Advance(time.Duration(e.DtSec) * time.Second)
+		}
+		o := n1.Step(c.Materialise(n1, e))
+		if o.Panic != nil {
+			panicked = true
+			break
+		}
+		outs1 += len(o.Obs) + len(o.VAAs) + len(o.Reqs)
+		for len(n1.Pending) > 0 {
+			o2 := n1.Step(n1.TakeLoopback(0))
+			if o2.Panic != nil {
+				panicked = true
+				break
+			}
+			outs1 += len(o2.Obs) + len(o2.VAAs) + len(o2.Reqs)
+		}
+	}
+	k1 := proch.ImplKey(n1, n1.Store(), true)
+	n1.Close()
+	_ = x
+	if panicked {
+		return // a panic at handler level is reported by the search itself
+	}
+	// (2) the real Run loop
+	ev.Journal(map[string]interface{}{"config": c, "history": h, "pretty": pretty, "oracle": "C13-run-loop"})
+	rn := w.NewRunNode(c.OwnKey)
+	outs2 := 0
+	for _, e := range h {
+		if e.Kind == "tick" {
+			vtime.Advance(time.Duration(e.DtSec) * time.Second)
+		}
+		o := rn.Deliver(c.Materialise(rn.Node, e))
+		outs2 += len(o.Obs) + len(o.VAAs) + len(o.Reqs)
+	}
+	k2 := proch.ImplKey(rn.Node, rn.Store(), true)
+	rn.Close()
+	if k1 != k2 || outs1 != outs2 {
+		r.Violation("C13 run-loop: the real Run loop and the one-iteration dispatch hook disagree (harness binding broken or Run does more than dispatch)", fmt.Sprintf("%v: %s vs %s, outputs %d vs %d", pretty, k1, k2, outs1, outs2), proch.Replay{Config: *c, History: h, Pretty: pretty, Oracle: "C13-run-loop"})
+	}
 }
